@@ -380,3 +380,116 @@ def _tmvn_variance(it, ctx, a, k):
 
 
 _tmvn_variance.is_property = True
+
+
+# ============================================================================ misc torch =========
+INF = z3.Real("INF")  # +infinity of the float format: larger than every finite value that is introduced
+
+
+@op("torch.get_default_dtype")
+def _get_default_dtype(it, ctx, a, k):
+    return VAtom("torch.float")
+
+
+def _inf_aware_tensor(it, ctx, a, k):
+    x = a[0]
+    if isinstance(x, VAtom) and x.name.startswith("float:"):
+        t = {"float:inf": INF, "float:-inf": -INF}.get(x.name)
+        if t is None:
+            raise Undecided("nan constant")
+        return E.scalar(t)
+    return _tensor(it, ctx, a, k)
+
+
+T["torch.as_tensor"] = _inf_aware_tensor
+T["torch.tensor"] = _inf_aware_tensor
+
+
+def _reduce_all(name):
+    def f(it, ctx, a, k):
+        t = as_tensor(a[0])
+        if len(a) > 1 and isinstance(a[1], VTensor):
+            # binary elementwise max / min
+            if name == "max":
+                return E.pointwise(ctx, [t, a[1]], lambda x, y: z3.If(E.coerce_pair(x, y)[0] >= E.coerce_pair(x, y)[1], *E.coerce_pair(x, y)))
+            return E.pointwise(ctx, [t, a[1]], lambda x, y: z3.If(E.coerce_pair(x, y)[0] <= E.coerce_pair(x, y)[1], *E.coerce_pair(x, y)))
+        if t.natoms() == 0 or all(d.is_one() for d in t.dims):
+            return E.scalar(t.elem([z3.IntVal(0)] * t.natoms()))
+        raise Undecided(f"torch.{name} over a symbolic-size tensor")
+
+    return f
+
+
+T["torch.max"] = _reduce_all("max")
+T["torch.min"] = _reduce_all("min")
+T["torch.maximum"] = _reduce_all("max")
+T["torch.minimum"] = _reduce_all("min")
+T["math.inf"] = VNum(INF)
+T["torch.inf"] = VNum(INF)
+
+
+# ============================================================================ real scalars / math ==
+def _real_fn(name):
+    def f(it, ctx, a, k):
+        from . import dom_real
+        x = a[0]
+        if isinstance(x, VNum):
+            return VNum(dom_real.apply(ctx, name, x.real()))
+        if isinstance(x, VTensor):
+            return E.METHODS[name](x, it, ctx, [], {})
+        raise Undecided(f"math.{name} of {x.kind}")
+
+    return f
+
+
+for _n in ("exp", "log", "sqrt", "sin", "cos", "tanh", "erf", "log1p", "expm1"):
+    T["real." + _n] = _real_fn(_n)
+    T["math." + _n] = _real_fn(_n)
+
+
+@op("math.pow")
+def _mpow(it, ctx, a, k):
+    from . import dom_real
+    return VNum(dom_real.power(ctx, a[0].real(), a[1].real()))
+
+
+# ============================================================================ torch.distributions.Normal
+class VNormal(V):
+    """torch.distributions.Normal(loc, scale): documented elementwise log density"""
+
+    kind = "Normal"
+
+    def __init__(self, loc, scale):
+        self.loc, self.scale = as_tensor(loc), as_tensor(scale)
+
+    def isinstance_of(self, name):
+        return name.split(".")[-1] in ("Normal", "Distribution", "NormalPrior", "Prior")
+
+    def py_getattr(self, it, ctx, name):
+        if name in ("loc", "mean"):
+            return self.loc
+        if name in ("scale", "stddev"):
+            return self.scale
+        if name == "variance":
+            return E.pointwise(ctx, [self.scale], lambda s: s * s)
+        if name == "log_prob":
+            return VBuiltin("Normal.log_prob", self.log_prob)
+        if name in ("batch_shape",):
+            dims, _ = E.broadcast_dims(ctx, [self.loc, self.scale])
+            return VTuple([VNum(d.size) for d in dims], is_size=True)
+        raise Undecided(f"Normal.{name}")
+
+    def log_prob(self, it, ctx, a, k):
+        from . import dom_real
+        x = as_tensor(a[0])
+        half_log_2pi = dom_real.apply(ctx, "log", dom_real.apply(ctx, "sqrt", 2 * dom_real.pi(ctx)))
+        return E.pointwise(ctx, [x, self.loc, self.scale],
+                           lambda xv, m, s: -((E.to_real(xv) - E.to_real(m)) * (E.to_real(xv) - E.to_real(m))) / (2 * E.to_real(s) * E.to_real(s))
+                           - dom_real.apply(ctx, "log", E.to_real(s)) - half_log_2pi, sort="real")
+
+
+@op("torch.distributions.Normal", "torch.distributions.normal.Normal")
+def _Normal(it, ctx, a, k):
+    loc = a[0] if a else k["loc"]
+    scale = a[1] if len(a) > 1 else k["scale"]
+    return VNormal(loc, scale)
